@@ -64,6 +64,11 @@ def gen_specs(ctx):
         sh = S([E("Base", [F("id"), F("kind", "time.Duration"), F("in", "Inner"), F("ptr", "*Inner")], shoot=True, ptr=ptr), F("total", "int64")])
         sh["force_share"] = True
         out.append(sh)
+    # all-in-one runs over an embedded shoot type whose NAME sorts after "T" (value and pointer embed, -file= and -type=*)
+    for k, (nm, ptr, fm) in enumerate((("node", False, "file"), ("inner", True, "star"), ("Zed", False, "star"), ("Ux", True, "file"))):
+        sh = S([F("title", "string"), E(nm, [F("id"), F("by", "string", get=True), F("note", "string", set=True)], ptr=ptr, shoot=True), F("n%d" % k)])
+        sh["force_mode"] = fm
+        out.append(sh)
     n = ctx.n(300, 2500)
     for _ in range(n):
         s = g.top("T", getset_dirs=True, generic=0.08, maxfields=4, generic_embed=0.2, selfembed=0.05, types_extra=newgen.EXTRA_TYPES, crosspkg=0.1)
@@ -134,15 +139,17 @@ def run(ctx, obl):
         # relies on; half of the embedded names (inner, node) sort AFTER "T"
         local = [m for m in s["members"] if m["k"] == "e" and m.get("pkg") != "sub"]
         mode = "list"
-        if (not homonyms and not cnames and not cafter and not s["tparams"] and ctx.rng.random() < 0.35
+        if s.get("force_mode"):
+            cdecls, cnames, cafter = [], [], []
+        if (not homonyms and not cnames and not cafter and not s["tparams"] and (ctx.rng.random() < 0.35 or s.get("force_mode"))
                 and all(m.get("shoot") and not any(mm["k"] == "e" and mm.get("pkg") != "sub" for mm in m["decl"]["members"]) for m in local)):
-            mode = ctx.rng.choice(["file", "file", "star"])
+            mode = s.get("force_mode") or ctx.rng.choice(["file", "file", "star"])
             args = ["new", "-getset", "-file=t.go" if mode == "file" else "-type=*"]
         res.hist("selection_mode", mode + ("+embedded-shoot-type" if local and mode != "list" else ""))
         files = newgen.case_files("cs", homonyms + cdecls + [s], cid, deps_first=mode != "list")
         if mode == "star":
             files["t.go"] = files["t.go"].replace("package cs\n", "package cs\n\n//go:generate shoot " + " ".join(args) + "\n", 1)
-        runs = [{"args": args}] * (2 if ctx.rng.random() < 0.12 else 1)
+        runs = [{"args": args}] * (2 if ctx.rng.random() < 0.12 and not s.get("force_mode") else 1)
         # history with a SOURCE EDIT (15% of the cases with an embedded shoot type that carries a type-level directive): the first
         # run sees the embedded type WITHOUT the directive, then the directive is added by hand and the same command runs again
         # over the package that holds the first output; the expectation is that of the edited sources
